@@ -20,13 +20,25 @@ type (
 
 func NewCond(l Locker) *Cond { return sync.NewCond(l) }
 
-type Mutex struct{ locked bool }
+// In passive (free-running) mode - vs.S.Free == true for the whole run - every object falls back to the real
+// primitive it stands for, so that the race detector sees the true happens-before relation of the program.
+type Mutex struct {
+	locked bool
+	real   sync.Mutex
+}
 
 func (m *Mutex) Lock() {
+	if vs.S.Free {
+		m.real.Lock()
+		return
+	}
 	vs.Gate("d.Lock", m, func() bool { return !m.locked }, func() { m.locked = true })
 }
 
 func (m *Mutex) TryLock() (ok bool) {
+	if vs.S.Free {
+		return m.real.TryLock()
+	}
 	vs.Gate("d.TryLock", m, nil, func() {
 		if !m.locked {
 			m.locked, ok = true, true
@@ -36,6 +48,10 @@ func (m *Mutex) TryLock() (ok bool) {
 }
 
 func (m *Mutex) Unlock() {
+	if vs.S.Free {
+		m.real.Unlock()
+		return
+	}
 	bad := false
 	vs.Gate("d.Unlock", m, nil, func() {
 		if !m.locked {
@@ -53,14 +69,22 @@ type RWMutex struct {
 	readers int
 	writer  bool
 	wwait   int
+	real    sync.RWMutex
 }
 
 func (m *RWMutex) Lock() {
+	if vs.S.Free {
+		m.real.Lock()
+		return
+	}
 	m.wwait++
 	vs.Gate("d.WLock", m, func() bool { return !m.writer && m.readers == 0 }, func() { m.writer = true; m.wwait-- })
 }
 
 func (m *RWMutex) TryLock() (ok bool) {
+	if vs.S.Free {
+		return m.real.TryLock()
+	}
 	vs.Gate("d.TryWLock", m, nil, func() {
 		if !m.writer && m.readers == 0 {
 			m.writer, ok = true, true
@@ -70,6 +94,10 @@ func (m *RWMutex) TryLock() (ok bool) {
 }
 
 func (m *RWMutex) Unlock() {
+	if vs.S.Free {
+		m.real.Unlock()
+		return
+	}
 	bad := false
 	vs.Gate("d.WUnlock", m, nil, func() { bad = !m.writer; m.writer = false })
 	if bad {
@@ -78,10 +106,17 @@ func (m *RWMutex) Unlock() {
 }
 
 func (m *RWMutex) RLock() {
+	if vs.S.Free {
+		m.real.RLock()
+		return
+	}
 	vs.Gate("d.RLock", m, func() bool { return !m.writer && m.wwait == 0 }, func() { m.readers++ })
 }
 
 func (m *RWMutex) TryRLock() (ok bool) {
+	if vs.S.Free {
+		return m.real.TryRLock()
+	}
 	vs.Gate("d.TryRLock", m, nil, func() {
 		if !m.writer && m.wwait == 0 {
 			m.readers++
@@ -92,6 +127,10 @@ func (m *RWMutex) TryRLock() (ok bool) {
 }
 
 func (m *RWMutex) RUnlock() {
+	if vs.S.Free {
+		m.real.RUnlock()
+		return
+	}
 	bad := false
 	vs.Gate("d.RUnlock", m, nil, func() { bad = m.readers <= 0; m.readers-- })
 	if bad {
@@ -108,7 +147,8 @@ func (m *RWMutex) RLocker() Locker { return (*rlocker)(m) }
 
 // Map: every operation is one atomic step (as sync.Map's are) and a scheduling point.
 type Map struct {
-	m map[any]any
+	m    map[any]any
+	real sync.Map
 }
 
 func (m *Map) init() {
@@ -118,15 +158,25 @@ func (m *Map) init() {
 }
 
 func (m *Map) Load(k any) (v any, ok bool) {
+	if vs.S.Free {
+		return m.real.Load(k)
+	}
 	vs.Gate("d.Map.Load", m, nil, func() { v, ok = m.m[k] })
 	return
 }
 
 func (m *Map) Store(k, v any) {
+	if vs.S.Free {
+		m.real.Store(k, v)
+		return
+	}
 	vs.Gate("d.Map.Store", m, nil, func() { m.init(); m.m[k] = v })
 }
 
 func (m *Map) LoadOrStore(k, v any) (actual any, loaded bool) {
+	if vs.S.Free {
+		return m.real.LoadOrStore(k, v)
+	}
 	vs.Gate("d.Map.LoadOrStore", m, nil, func() {
 		m.init()
 		if actual, loaded = m.m[k]; !loaded {
@@ -138,18 +188,33 @@ func (m *Map) LoadOrStore(k, v any) (actual any, loaded bool) {
 }
 
 func (m *Map) LoadAndDelete(k any) (v any, loaded bool) {
+	if vs.S.Free {
+		return m.real.LoadAndDelete(k)
+	}
 	vs.Gate("d.Map.LoadAndDelete", m, nil, func() { v, loaded = m.m[k]; delete(m.m, k) })
 	return
 }
 
-func (m *Map) Delete(k any) { vs.Gate("d.Map.Delete", m, nil, func() { delete(m.m, k) }) }
+func (m *Map) Delete(k any) {
+	if vs.S.Free {
+		m.real.Delete(k)
+		return
+	}
+	vs.Gate("d.Map.Delete", m, nil, func() { delete(m.m, k) })
+}
 
 func (m *Map) Swap(k, v any) (prev any, loaded bool) {
+	if vs.S.Free {
+		return m.real.Swap(k, v)
+	}
 	vs.Gate("d.Map.Swap", m, nil, func() { m.init(); prev, loaded = m.m[k]; m.m[k] = v })
 	return
 }
 
 func (m *Map) CompareAndSwap(k, old, nw any) (ok bool) {
+	if vs.S.Free {
+		return m.real.CompareAndSwap(k, old, nw)
+	}
 	vs.Gate("d.Map.CAS", m, nil, func() {
 		if cur, has := m.m[k]; has && cur == old {
 			m.m[k] = nw
@@ -160,6 +225,9 @@ func (m *Map) CompareAndSwap(k, old, nw any) (ok bool) {
 }
 
 func (m *Map) CompareAndDelete(k, old any) (ok bool) {
+	if vs.S.Free {
+		return m.real.CompareAndDelete(k, old)
+	}
 	vs.Gate("d.Map.CAD", m, nil, func() {
 		if cur, has := m.m[k]; has && cur == old {
 			delete(m.m, k)
@@ -169,11 +237,21 @@ func (m *Map) CompareAndDelete(k, old any) (ok bool) {
 	return
 }
 
-func (m *Map) Clear() { vs.Gate("d.Map.Clear", m, nil, func() { m.m = nil }) }
+func (m *Map) Clear() {
+	if vs.S.Free {
+		m.real.Clear()
+		return
+	}
+	vs.Gate("d.Map.Clear", m, nil, func() { m.m = nil })
+}
 
 // Range iterates over a snapshot in a deterministic (insertion-independent, key-sorted when
 // keys are strings) order.
 func (m *Map) Range(f func(k, v any) bool) {
+	if vs.S.Free {
+		m.real.Range(f)
+		return
+	}
 	type kv struct{ k, v any }
 	var snap []kv
 	vs.Gate("d.Map.Range", m, nil, func() {
